@@ -26,10 +26,13 @@ type c19Op struct {
 }
 
 type c19Case struct {
-	Opts  vOpts    `json:"opts"`
-	Names []string `json:"names"`
-	Keys  []string `json:"keys"`
-	Ops   []c19Op  `json:"ops"`
+	Opts vOpts `json:"opts"`
+	// LeaveAt >= 0: a private cluster; after that many operations one member leaves gracefully (R = 2,
+	// so nothing is lost): the survivors then host primary and backup copies of the same partitions
+	LeaveAt int      `json:"leave_at"`
+	Names   []string `json:"names"`
+	Keys    []string `json:"keys"`
+	Ops     []c19Op  `json:"ops"`
 }
 
 // name/key sets whose concatenations coincide: ("ab","c") / ("a","bc"), ("a.b","c") / ("a",".bc"), identical keys everywhere
@@ -47,7 +50,15 @@ func genC19(t *rapid.T) *c19Case {
 	c.Opts.TableSize = rapid.SampledFrom([]int{0, 1024}).Draw(t, "tableSize")
 	c.Names = rapid.SampledFrom(c19NameSets).Draw(t, "names")
 	c.Keys = rapid.SampledFrom(c19KeySets).Draw(t, "keys")
+	c.LeaveAt = -1
+	if c.Opts.Members >= 2 && rapid.IntRange(0, 3).Draw(t, "leave") == 0 {
+		c.Opts.Replicas = 2
+		c.Opts.FastDetect = true
+	}
 	n := rapid.IntRange(5, 40).Draw(t, "nops")
+	if c.Opts.FastDetect {
+		c.LeaveAt = rapid.IntRange(2, n-1).Draw(t, "leaveAt")
+	}
 	kinds := []string{"put", "put", "put", "get", "get", "del", "expire", "incr", "getput", "lock", "unlock", "scan", "destroy"}
 	for i := 0; i < n; i++ {
 		op := c19Op{Op: rapid.SampledFrom(kinds).Draw(t, "op")}
@@ -82,7 +93,16 @@ func scanAll(ctx context.Context, dm DMap, count int) ([]string, error) {
 }
 
 func runC19(c *c19Case) (v *vcommon.Violation, nontrivial, inconclusive bool) {
-	cl, err := pooledCluster(c.Opts)
+	var cl *vCluster
+	var err error
+	if c.LeaveAt >= 0 {
+		cl, err = vNewCluster(c.Opts)
+		if err == nil {
+			defer cl.shutdown()
+		}
+	} else {
+		cl, err = pooledCluster(c.Opts)
+	}
 	if err != nil {
 		return nil, false, true
 	}
@@ -102,6 +122,19 @@ func runC19(c *c19Case) (v *vcommon.Violation, nontrivial, inconclusive bool) {
 		tokens[i] = map[string][]byte{}
 	}
 	for i, op := range c.Ops {
+		if c.LeaveAt == i && len(cl.live()) >= 2 {
+			cl.stop(cl.live()[len(cl.live())-1])
+			if err := cl.waitSettled(20 * time.Second); err != nil {
+				return nil, nontrivial, true
+			}
+		}
+		if c.LeaveAt >= 0 && i >= c.LeaveAt && (op.Op == "lock" || op.Op == "unlock" || op.Op == "expire") {
+			// After a failover a key may live on its backup copy only. Reads find it there, but the conditions of
+			// NX / XX / Expire / Lock are evaluated on the (empty) primary copy of the new owner. The listed
+			// properties promise healthy behaviour after a failure for plain Put, Get and Delete only (C02), so
+			// these operations are not part of this variant (observation recorded in DESIGN.md 14.6).
+			continue
+		}
 		name := names[op.D]
 		key := c.Keys[op.K]
 		m := models[op.D]
